@@ -265,6 +265,48 @@ def run(ctx: Ctx) -> int:
         fn=addf,
     )
 
+    # ---------------- C14.i: which classes' parameters a class inherits ------------------------------------------
+    # ast_is_supported_super_call records where in the MRO an explicit `super(X, self).__init__` continues: it
+    # enumerates a SLICE of the class list (classes[idx:]) and has to store the absolute position idx + offset
+    assc = ctx.func("_parameter_resolvers:ast_is_supported_super_call")
+    for lp_s in [lp for lp in walk_local(assc) if isinstance(lp, ast.For) and isinstance(lp.iter, ast.Call) and call_leaf(lp.iter) == "enumerate" and lp.iter.args and isinstance(lp.iter.args[0], ast.Subscript) and isinstance(lp.iter.args[0].slice, ast.Slice) and lp.iter.args[0].slice.lower is not None]:
+        base_seq = ast.unparse(lp_s.iter.args[0].value)
+        start = ast.unparse(lp_s.iter.args[0].slice.lower)
+        off = lp_s.target.elts[0].id if isinstance(lp_s.target, ast.Tuple) and isinstance(lp_s.target.elts[0], ast.Name) else None
+        sets_ = [c for c in calls_in(lp_s) if call_leaf(c) == "set" and c.args and isinstance(c.args[0], ast.Tuple) and any(ast.unparse(e) == base_seq for e in c.args[0].elts)]
+        for c in sets_:
+            idx_e = [e for e in c.args[0].elts if ast.unparse(e) != base_seq]
+            ok = bool(idx_e) and all(isinstance(e, ast.BinOp) and isinstance(e.op, ast.Add) and {ast.unparse(e.left), ast.unparse(e.right)} == {start, off} for e in idx_e)
+            ctx.oblige(
+                "C14.i",
+                ok,
+                c,
+                f"the position stored with `{base_seq}` is absolute (`{start} + {off}`)" if ok else f"`{src(c, 60)}` stores the offset inside the slice `{base_seq}[{start}:]` as if it were a position in `{base_seq}`: for an explicit super(X, self).__init__ in an intermediate class the resolver continues at the wrong class - parameters of a deliberately skipped base are offered, accepted, and the constructor fails with an unexpected keyword",
+                fn=assc,
+            )
+
+    # ---------------- C14.h: a class implements a Protocol only if it matches EVERY member ------------------------
+    ipr = ctx.func("_typehints:implements_protocol")
+    ploops = [lp for lp in walk_local(ipr) if isinstance(lp, ast.For)]
+    ctx.need(len(ploops) >= 1, "implements_protocol: loop over the protocol's members")
+    lp_ = ploops[0]
+    inner_rets = [r for r in walk_local(lp_) if isinstance(r, ast.Return)]
+    pos_in_loop = [r for r in inner_rets if not (isinstance(r.value, ast.Constant) and r.value.value is False)]
+    has_t = [n_ for n_ in walk_local(lp_) if isinstance(n_, ast.If) and any(isinstance(c, ast.Call) and call_leaf(c) == "hasattr" for c in ast.walk(n_.test))]
+    from .util import branch_when
+
+    missing_ok = bool(has_t) and all(any(isinstance(s_, ast.Return) and isinstance(s_.value, ast.Constant) and s_.value.value is False for s_ in branch_when(n_, False)) for n_ in has_t)
+    after = [r for r in ipr.body[ipr.body.index(lp_) + 1 :] if isinstance(r, ast.Return)] if lp_ in ipr.body else []
+    ok = not pos_in_loop and len(inner_rets) >= 3 and missing_ok and bool(after)
+    ctx.oblige(
+        "C14.h",
+        ok,
+        (pos_in_loop or has_t or [lp_])[0],
+        "implements_protocol rejects on the first member that is missing or differs and accepts only after all members were compared" if ok else "the member loop of implements_protocol is no longer a for-all: it accepts after the first matching member, or skips members the class does not have - a class implementing only part of a multi-method Protocol is accepted for a parameter of that Protocol type",
+        fn=ipr,
+        construct="protocol check is a for-all",
+    )
+
     # ---------------- C14.g: a required init parameter is always offered ----------------------------------------
     # _add_signature_parameter leaves out private parameters (leading underscore) - but only optional ones: a
     # required `_x` that is not offered can neither be given (rejected as unknown) nor omitted (TypeError at build)
